@@ -108,11 +108,16 @@ def gen_api(seed, tier):
     for th in (1, 2, 3):
         cases.append(Case("aapi", "p%d" % i, [L(5, th, rng.randint(0, 99)) for _ in range(2)])); i += 1
     cases.append(Case("aapi", "d%d" % i, [L(3, d) for d in (0, 1, 7, 100)])); i += 1
+    cases.append(Case("aapi", "o%d" % i, [L(6, 0, rng.randint(0, 99)), L(6, 1, rng.randint(0, 99)), L(6, 0, 3)])); i += 1
+    for mode in range(5):
+        cases.append(Case("aapi", "x%d" % i, [L(7, mode, 0, rng.randint(0, 99)), L(7, mode, 0, -rng.randint(1, 99)), L(7, mode, 1, -rng.randint(1, 99)),
+                                               L(8, mode, 0, rng.randint(0, 99)), L(8, mode, 1, 0)])); i += 1
     for _ in range(10 if tier == "quick" else 100):
         ops = []
         for _ in range(rng.randint(2, 8)):
             r0 = rng.random()
-            if r0 < 0.15: ops.append(L(4, rng.randint(0, 4), rng.randint(0, 1), rng.randint(0, 99)))
+            if r0 < 0.08: ops.append(rng.choice([L(6, rng.randint(0, 1), rng.randint(0, 99)), L(7, rng.randint(0, 4), rng.randint(0, 1), rng.randint(-50, 50)), L(8, rng.randint(0, 4), rng.randint(0, 1), rng.randint(0, 99))]))
+            elif r0 < 0.15: ops.append(L(4, rng.randint(0, 4), rng.randint(0, 1), rng.randint(0, 99)))
             elif r0 < 0.2: ops.append(L(3, rng.randint(0, 300)))
             elif r0 < 0.6: ops.append(L(1, rng.randint(0, 4), rng.randint(0, 2), rng.randint(-50, 300)))
             else: ops.append(L(2, rng.randint(0, 2), rng.randint(1, 4), rng.randint(0, 3), rng.randint(-9, 99)))
